@@ -6,4 +6,11 @@ W4 == (h1 :> 1) @@ (h2 :> 1) @@ (h3 :> 1) @@ (z :> 1)
 WPos == (h1 :> 2) @@ (h2 :> 2) @@ (h3 :> 1) @@ (z :> 2)
 W7 == (h1 :> 1) @@ (h2 :> 1) @@ (h3 :> 1) @@ (h4 :> 1) @@ (h5 :> 1) @@ (z :> 1) @@ (z2 :> 1)
 Sym == Permutations({h1, h2, h3})
+\* two branches from the first round, three rounds each
+ShapeY == {<<>>, <<1>>, <<2>>, <<1, 1>>, <<2, 1>>, <<1, 1, 1>>, <<2, 1, 1>>}
+\* a common round, then two branches of three rounds
+ShapeI == {<<>>, <<1>>, <<1, 1>>, <<1, 2>>, <<1, 1, 1>>, <<1, 2, 1>>, <<1, 1, 1, 1>>, <<1, 2, 1, 1>>}
+ShapeY2 == {<<>>, <<1>>, <<2>>, <<1, 1>>, <<2, 1>>}
+\* full binary tree of depth 2
+ShapeT == {<<>>, <<1>>, <<2>>, <<1, 1>>, <<1, 2>>, <<2, 1>>, <<2, 2>>}
 ====
